@@ -9,7 +9,8 @@ RULE = ("directed deck with one scripted micro-history per (operation x argument
         "seeded random histories of 5..40 public editing operations over 1-2 documents with names from a "
         "3-letter alphabet; after every operation the sibling-name, name and id predicates plus the per-operation id/name post-conditions are evaluated; non-trivial = history with "
         "more than 2 operations; distinct = hash of the op list")
-ASSUMPTIONS = ["operations are issued through the public API only; private fields are only read",
+ASSUMPTIONS = ["the repository's own test-suite runs once more under the naming predicates (evaluated on everything a test created, after each test)",
+               "operations are issued through the public API only; private fields are only read",
                "a history is abandoned at its first violation of C03-C06 (later states are unreachable for a "
                "correct implementation); cells with an open known finding are skipped in the random phase and "
                "re-confirmed by the directed deck in the same run"]
